@@ -8,12 +8,18 @@
 //	start <id> <dbrps> <froms>      NewTask(script generated from <froms>, one `@sink()` under every from()) + StartTask
 //	stop <id> / delete <id>         StopTask / DeleteTask
 //	write <db> <rp> <points>        TaskMaster.WritePoints, or POST /kapacitor/v1/write (serveWriteLine) in http mode
-//	hwrite <db> <rp> <prec> <lines> always POST /kapacitor/v1/write: `db`/`rp` = % means "parameter absent", <prec> one of
-//	                                - n u ms s, a line `!k` is the k-th malformed line of a pool  => ok | err:<status>
+//	hwrite <db> <rp> <prec> <lines> [<flags>]
+//	                                always POST /kapacitor/v1/write: `db`/`rp` = % means "parameter absent", <prec> one of
+//	                                - n u ms s m h x (x: unknown to the server), a line is `!k` (k-th malformed line of a pool),
+//	                                `#k` (comment / blank line) or <point>@<integer time stamp in that precision>; flags: gz
+//	                                (gzip body), gzhdr (gzip header, body is no gzip stream), gztrunc (truncated stream), cons
+//	                                (a consistency parameter)  => ok | err:<status>
+//	points                          id|name|pass|v|host|dc|time-ns (tags host and dc, absent when %; fields id, v)
+//	from-nodes                      db|rp|measurement|where[|options|parent], options = letters of optLetters
 //	cwrite <db> <rp> <w1>&<w2>&…    one goroutine per writer, each calling WritePoints with its points, all at once
 //	drain                           TaskMaster.Drain: every fork is deleted, the executions end; WritePoints is closed for good
 //	swrite <db> <rp> <points>       points fed through a StreamCollector of tm.Stream(name) (works after a drain too)
-//	final <id> <i>                  => ids of the points the sink under the i-th from() of task <id> recorded, in order
+//	final <id> <i>                  => the points the sink under the i-th from() of task <id> recorded, in order, whole (see sinkIDs)
 //	quiesce                         => number of waits that timed out (0 unless the implementation lost points)
 //
 // and prints what the implementation did after ` => `.
